@@ -278,6 +278,15 @@ pub fn canon_json(v: &anda_kip::Json, out: &mut String) {
     }
 }
 
+pub fn json_depth_of(v: &anda_kip::Json) -> usize {
+    use anda_kip::Json;
+    match v {
+        Json::Array(items) => 1 + items.iter().map(json_depth_of).max().unwrap_or(0),
+        Json::Object(m) => 1 + m.values().map(json_depth_of).max().unwrap_or(0),
+        _ => 0,
+    }
+}
+
 pub struct Parsed {
     json_canon: String,
     lexer_mismatch: Vec<String>,
@@ -308,6 +317,7 @@ fn parse_all(x: &str) -> Parsed {
     let (json, jv) = guarded(|| anda_kip::parse_json(x));
     let mut json_canon = String::new();
     if let Some(v) = &jv {
+        json_canon.push_str(&format!("{} ", json_depth_of(v)));
         canon_json(v, &mut json_canon);
     }
     let micros = t0.elapsed().as_micros();
